@@ -9,7 +9,7 @@
    malformed beyond these rules (illegal bytes, whitespace, version syntax, CRLF discipline) is decided against the
    code by the correspondence and the by-construction oracle over mutation classes. *)
 From Via Require Import M_Char M_Parse M_Receive P_Parse P_C02.
-From Via Require Import M_Imp M_Loop M_Hdr M_Msg Gen_Parse P_Imp P_Loop P_Hdr P_Frag P_Msg.
+From Via Require Import M_Imp M_Loop M_Hdr M_Msg M_Query Gen_Parse P_Imp P_Loop P_Hdr P_Frag P_Msg P_Query.
 Local Open Scope N_scope.
 
 Theorem C02_head_error_is_invalid : forall cfg v buf q1 rest,
@@ -226,3 +226,14 @@ Theorem C02_request_head_is_the_source : forall L q buf fuel, hd_ok (rq_headers 
   Some (let '(q', rest, p) := rq_parse L q buf in (is_done p, rq_store q', rest)).
 Proof. exact rq_parse_is_the_source. Qed.
 Print Assumptions C02_request_head_is_the_source.
+
+(* the queries behind the verdicts: the Host check, TRACE, chunked framing (translated; see Properties_C09.v) *)
+Theorem C02_missing_host_is_the_source : forall q, rq_ev q rq_missing_host_header_src = rq_missing_host q.
+Proof. exact rq_missing_host_is_the_source. Qed.
+Theorem C02_is_trace_is_the_source : forall q, rq_ev q rq_is_trace_src = rq_is_trace q.
+Proof. exact rq_is_trace_is_the_source. Qed.
+Theorem C02_is_chunked_is_the_source : forall h, hq_eval hd_is_chunked_src h = hd_is_chunked h.
+Proof. exact hd_is_chunked_is_the_source. Qed.
+Print Assumptions C02_missing_host_is_the_source.
+Print Assumptions C02_is_trace_is_the_source.
+Print Assumptions C02_is_chunked_is_the_source.
